@@ -54,6 +54,9 @@ def check_inv(ctx, impl, st, n, hist, site):
     return True
 
 
+POOL = []   # raw tableaux reached by earlier walks (after at least one measurement)
+
+
 def walk(ctx, impl, rng):
     pc, CI = impl.pc, impl.CI
     n = rng.choice([1, 2, 2, 3, 3, 4, 5, 6])
@@ -65,7 +68,7 @@ def walk(ctx, impl, rng):
     has_meas = False
     for step in range(rng.choice([3, 6, 10, 16])):
         rows, r = impl.ops_of(st), int(st.r)
-        op = rng.choice(['rotate', 'rotate-mask', 'transform', 'transform-mask', 'gate', 'measure', 'measure', 'postselect', 'copy', 'mlayer'])
+        op = rng.choice(['rotate', 'rotate-mask', 'transform', 'transform-mask', 'gate', 'measure', 'measure', 'postselect', 'copy', 'mlayer', 'statemap', 'statemap'])
         ctx.count('op=' + op)
         try:
             if op == 'rotate':
@@ -88,6 +91,18 @@ def walk(ctx, impl, rng):
                 M = G.rand_map_ops(rng, len(idx))
                 hist.append((op, M, idx))
                 st.transform_by(impl.cmap(M), np.array(m))
+            elif op == 'statemap':
+                # the encoding map of another reachable state (its whole tableau, standby rows and destabilizers included) used as a Clifford map
+                src = [x for x in POOL if x[0] == n]
+                if not src:
+                    continue
+                _n, srows, sr = rng.choice(src)
+                hist.append((op, srows, sr))
+                M = impl.state(srows, sr).to_map()
+                if rng.random() < 0.5:
+                    st.transform_by(M)
+                else:
+                    st.transform_by(M.inverse())
             elif op == 'gate':
                 d = CU.rand_gate(rng, n, kinds=('named', 'cnot', 'gen'))
                 hist.append((op, d))
@@ -125,6 +140,8 @@ def walk(ctx, impl, rng):
             return
         if not check_inv(ctx, impl, st, n, hist, 'StabilizerState.' + op.split('-')[0]):
             return
+        if has_meas and len(POOL) < 400 and rng.random() < 0.5:
+            POOL.append((n, impl.ops_of(st), int(st.r)))
     ctx.case(str(hist), has_meas, sample=dict(op='walk', N=n, start=kind, steps=[h[0] for h in hist[1:]], final_r=int(st.r)))
 
 
